@@ -1,3 +1,10 @@
 class Tri:
     def area(self):
         return 1
+
+
+class Circle:
+    """A different class with the short name of shp.Circle."""
+
+    def area(self):
+        return 2
